@@ -52,4 +52,29 @@ PROPS = {
                 "its own database with backup/restore steps; raw malformed chunk decoding; distinct = distinct (op, result-shape)",
         "assumptions": ["values shorter than 2^32 bytes (uint32 length prefix)"],
     },
+    "C16": {
+        "shrink": True,
+        "manifest": {
+            "text": "Lean 4 theorems: probe_find_all (for every hash function and collision pattern, the reader's probe loop over "
+                    "a table built by the writer's linear probing returns exactly the record positions written with that hash, in "
+                    "insertion order, and terminates), buildTable_has_free, makeParse_dumpText (Dump text parses back to exactly "
+                    "the pairs). The byte-exact Lean model of writer/reader/dump is tied to the code on every run: file image "
+                    "byte-identical (FNV digest), FindNext iteration for present/absent keys, Dump text, Dump->Make identity, on "
+                    "databases of 0..20000 (thorough 65000) pairs with crafted bucket and full-hash collisions and record sizes "
+                    "around I/O buffer boundaries.",
+            "note": "Trusted: Lean kernel + standard axioms; spooky hash is external (each key's real hash is passed to the model; "
+                    "theorems hold for every hash function). Partial: the theorems are about the structured table layer and the "
+                    "text format; the byte-level layout (header offsets, uint32 positions) is validated by the correspondence "
+                    "(byte-identical files), not yet proved; mmap is trusted.",
+        },
+        "trusted": COMMON_TRUSTED + [
+            "spooky.Hash32 external: real hashes passed to the model, theorems quantify over all hash functions",
+            "byte-level file layout of the model validated by byte-identical comparison with real files, not proved",
+        ],
+        "rule": "empty and singleton databases, repeated keys, brute-forced full 32-bit hash collisions, single-bucket chains "
+                "of 1..600 keys with absent same-bucket probes, record sizes around 2048/4096/8192-byte boundaries, random "
+                "multisets of 0..6000 pairs, one (thorough: three) database(s) of 20000..65000 pairs; distinct = distinct "
+                "(op, output shape)",
+        "assumptions": ["total file size below 2^32 bytes (uint32 positions)"],
+    },
 }
